@@ -200,10 +200,23 @@ func (g Graph) simulate(recursionAllowed bool) (trace []int, reenters bool) {
 }
 
 func checkGraph(g Graph, recursionAllowed bool, st *fw.Stats) []finding {
+	fs := checkGraphVia(g, recursionAllowed, false, st)
+	// the same call graph entered by the host (starlark.Call on a thread with an empty stack)
+	return append(fs, checkGraphVia(g, recursionAllowed, true, st)...)
+}
+
+func checkGraphVia(g Graph, recursionAllowed, hostCall bool, st *fw.Stats) []finding {
 	o := Opts{Recursion: recursionAllowed}
 	text := g.programText()
 	want, reenters := g.simulate(recursionAllowed)
-	pr := runProd(text, o)
+	var pr prodResult
+	if hostCall {
+		text = strings.TrimSuffix(text, fmt.Sprintf("f0(%d)\n", recDepth))
+		pr = runProdHostCall(text, o, "f0", recDepth)
+		text += fmt.Sprintf("# then the host calls f0(%d) on a fresh thread\n", recDepth)
+	} else {
+		pr = runProd(text, o)
+	}
 	if st != nil {
 		st.Evals++
 		if reenters {
@@ -241,6 +254,9 @@ func checkGraph(g Graph, recursionAllowed bool, st *fw.Stats) []finding {
 	}
 	if pr.Panic != "" || pr.Static {
 		kind = "recursion-broken"
+	}
+	if hostCall {
+		kind += "(entered by the host)"
 	}
 	group := fmt.Sprintf("%s:rec=%d", kind, b2i(recursionAllowed))
 	bits := 0
